@@ -28,7 +28,10 @@
 
 /* ------------------------------------------------------------------ output */
 static int first_item;
-static void item_begin(void) { if (!first_item) fputs("; ", stdout); first_item = 0; }
+static long item_count;   /* items printed for the current event: a callback / frame flood ends the behaviour (exit 79) instead of filling the disk */
+static void item_begin(void) {
+    if (++item_count > 20000) { fputs("; itemflood\n", stdout); fflush(stdout); _exit(79); }
+    if (!first_item) fputs("; ", stdout); first_item = 0; }
 #define ITEM(...) do { item_begin(); printf(__VA_ARGS__); } while (0)
 static void put_le(uint32_t v, int n) { for (int i = 0; i < n; i++) printf(" %u", (unsigned)((v >> (8 * i)) & 0xFF)); }
 
@@ -447,7 +450,7 @@ static void run_behaviour(void) {
             pg->Start = pp->Start + a[2]; para_def[g] = para_def[a[1]] + a[2]; pg->Default = a[7] ? para_def[g] : 0; pg->Ident = 0;
             continue;
         }
-        first_item = 1; fputs("S ", stdout);
+        first_item = 1; item_count = 0; fputs("S ", stdout);
         tx_count = 0;
         run_cmd(op, a, na);
         ninj = 0; injpos = 0;
